@@ -647,6 +647,38 @@ theorem scram_adaptor_extracted :
     Gen.scramNextReturnsStepOutput = true ∧ Gen.scramNextStepsOnChallenge = true ∧
     Gen.scramStartReturnsStepError = true ∧ Gen.scramStartStepsOnEmpty = true := by decide
 
+/-! ## TLS layering: the ClientHello is the only thing ever in clear, and a failed handshake closes the socket
+
+`socketView` / `startTls` (Model/Auth.lean).  The statements are small — the content is in the tie: the fake broker
+behind TLS notes what reaches its raw socket first (`S` = a TLS handshake record, `C:<hex>` = protocol bytes in clear),
+and the shape facts below re-read where the two dial paths put the wrap. -/
+
+/-- with TLS the broker's socket sees the ClientHello first and then exactly the journal of the plain model, inside the
+channel: every theorem about the journal (only authentication requests before success, nothing after a failure, …)
+holds for what travels inside, and nothing else travels -/
+theorem tls_hello_then_journal (c : Cfg) (es : List Env) (s : State) (_h : runTls c true true es = some s) :
+    socketView true s = .hello :: s.log.map .inner := rfl
+
+theorem tls_success_is_plain_run (c : Cfg) (es : List Env) : runTls c true true es = run c es := by
+  simp [runTls, run, startTls]
+
+/-- a failed handshake: the dial has failed, the socket is closed, nothing was written and nothing can be
+(`failed_is_final`) -/
+theorem tls_handshake_failure_closes (c : Cfg) (es : List Env) (s : State) (h : runTls c true false es = some s) :
+    s.phase = .failed ∧ s.closed = true ∧ s.result.isSome = true ∧ s.log = [] ∧ es = [] := by
+  cases es with
+  | nil =>
+    simp [runTls, startTls, runFrom] at h; subst h; simp
+  | cons e es =>
+    simp only [runTls, startTls, Bool.not_false, Bool.and_self, ↓reduceIte, runFrom] at h
+    rw [failed_is_final c _ e rfl] at h
+    cases h
+
+/-- where the wrap sits, re-read from dialer.go / transport.go this run -/
+theorem tls_wrap_facts_hold :
+    Gen.transportTlsWrapsBeforeProtocolConn = true ∧ Gen.dialerHandshakesInDialContext = true ∧
+    Gen.dialerConnUsesDialContextResult = true ∧ Gen.dialerFailedHandshakeCloses = true := by decide
+
 /-! ## the control flow of the two `authenticateSASL` functions, re-extracted by symbolic execution
 
 `go/extract/saslplain/authflow.go` runs both functions symbolically over scenarios of call outcomes (handshake,
@@ -765,11 +797,35 @@ def transportConnectModelRow (sc : List String) : List String :=
         (if s.closed then [] else ["startRun", "clearGuard"]) ++
         [if s.phase == .ready then "return:conn" else "return:error"]
 
+/-- the deadline bookkeeping of the two connect functions is the subject of `connect_flows_run_under_the_time_limit` -/
+def noTimeLimit (eff : List String) : List String :=
+  eff.filter (fun e => !(e == "setDeadline" || e == "clearDeadline"))
+
 /-- the extracted exit structure of `(*Dialer).connect` and `(*connGroup).connect` is the model's: same calls,
 closed on exactly the same paths, a connection returned exactly when the model reaches `ready` -/
 theorem connect_flows_are_the_model :
-    Gen.MuxFacts.dialerConnectFlow.all (fun (sc, eff) => dialerConnectModelRow sc == eff) = true ∧
-    Gen.MuxFacts.transportConnectFlow.all (fun (sc, eff) => transportConnectModelRow sc == eff) = true := by
+    Gen.MuxFacts.dialerConnectFlow.all (fun (sc, eff) => dialerConnectModelRow sc == noTimeLimit eff) = true ∧
+    Gen.MuxFacts.transportConnectFlow.all (fun (sc, eff) => transportConnectModelRow sc == noTimeLimit eff) = true := by
+  decide
+
+/-- the set-up runs under the dial's time limit: walking a row of the two connect functions, every exchange with the
+broker (`apiVersions`, `auth` = the whole SASL exchange) happens while a deadline is set on the connection, and the
+deadline is cleared before the connection is handed out.  (A Dialer's ApiVersions exchange is part of `auth`: it is the
+lazy negotiation inside `saslHandshake`.)  The model's `Env.ioerr` — "the pending exchange fails: timeout, …" — is an
+event the code can actually produce only under this discipline: with no deadline on the connection a broker that falls
+silent produces no event at all (finding C18-D33). -/
+def underTimeLimit (effs : List String) : Bool :=
+  (effs.foldl (fun (st : Bool × Bool) (e : String) =>
+      -- st = (deadline set, ok so far)
+      if e == "setDeadline" then (true, st.2)
+      else if e == "clearDeadline" then (false, st.2)
+      else if e == "apiVersions" || e == "auth" then (st.1, st.2 && st.1)
+      else if e == "return:conn" then (st.1, st.2 && !st.1)
+      else st) (false, true)).2
+
+theorem connect_flows_run_under_the_time_limit :
+    Gen.MuxFacts.dialerConnectFlow.all (fun (_, eff) => underTimeLimit eff) = true ∧
+    Gen.MuxFacts.transportConnectFlow.all (fun (_, eff) => underTimeLimit eff) = true := by
   decide
 
 /-! ## raw versus framed: the two places that decide it, re-extracted -/
